@@ -30,6 +30,7 @@ type WeightedMerkleTrie struct {
 	deleted     map[[32]byte]bool
 	tempDeleted [][]byte
 	created     [][]byte
+	saved       [][]byte // hashes put into the batch by the commit in progress
 	sync.Mutex
 }
 
@@ -391,6 +392,7 @@ func (t *WeightedMerkleTrie) Commit(collapseLevel int) (storage.Batcher, error) 
 		close(deleteChan)
 		close(createdChan)
 		wg.Wait()
+		t.keepSaved()
 	}()
 	t.collectDeleteAndCreated(deleteChan, createdChan, wg)
 	if ok {
@@ -498,6 +500,7 @@ func (t *WeightedMerkleTrie) commit(node Node, batcher storage.Batcher, collapse
 			return nil, err
 		}
 		if level == collapseLevel {
+			createdChan <- n.Hash()
 			n.Children = [16]Node{}
 			return &hashNode{
 				hash:   n.Hash(),
@@ -580,8 +583,29 @@ func (t *WeightedMerkleTrie) collectDeleteAndCreated(deleteChan, createdChan cha
 			var k [32]byte
 			copy(k[:], hash)
 			delete(t.deleted, k)
+			t.saved = append(t.saved, hash)
 			t.created = append(t.created, hash)
 		}
 		wg.Done()
 	}()
+}
+
+// keepSaved drops from the pending deletions every hash the commit has just
+// saved again: such a node is part of the committed trie.
+func (t *WeightedMerkleTrie) keepSaved() {
+	if len(t.saved) == 0 {
+		return
+	}
+	saved := make(map[string]struct{}, len(t.saved))
+	for _, h := range t.saved {
+		saved[string(h)] = struct{}{}
+	}
+	kept := t.tempDeleted[:0]
+	for _, h := range t.tempDeleted {
+		if _, ok := saved[string(h)]; !ok {
+			kept = append(kept, h)
+		}
+	}
+	t.tempDeleted = kept
+	t.saved = nil
 }
